@@ -82,7 +82,8 @@ class Report:
                     knownhits.append((inst, kf[(self.prop, fullkey)]))
                 else:
                     viol.append(inst)
-        vdir = os.path.join(VERIF, "evidence", "violations")
+        scratch = bool(os.environ.get("VERIF_SCRATCH_RUN"))
+        vdir = os.path.join(VERIF, "evidence", "scratch" if scratch else "violations")
         os.makedirs(vdir, exist_ok=True)
         # clear old replay files of this property
         for f in os.listdir(vdir):
@@ -137,7 +138,8 @@ class Report:
         }
         ev["coverage"].update(self.extra)
         os.makedirs(os.path.join(VERIF, "evidence"), exist_ok=True)
-        with open(os.path.join(VERIF, "evidence", self.prop + ".json"), "w") as f:
+        evpath = os.path.join(VERIF, "evidence", "scratch", self.prop + ".json") if scratch else os.path.join(VERIF, "evidence", self.prop + ".json")
+        with open(evpath, "w") as f:
             json.dump(ev, f, indent=1)
         print("%s: %d rule instances, %d hold, %d known findings, %d violations; %d functions analysed (%.1fs)" % (
             self.prop, n_obl, n_ok, len(knownhits), len(viol), len(self.analysed_fns), time.time() - self.t0))
